@@ -53,9 +53,11 @@ Definition judge_frame (sc : scenario) (prev_raw : option raw) (f : frame_in) (b
                                  | cs, acs => forallb (fun ic => match snd ic with CPress t => is_actuated v t | _ => true end) cs &&
                                               forallb (fun ic => match snd ic with CPress t => is_actuated (convert (aid_dim a) v) t | _ => true end) acs
                                  end in
+                   (* every context of this profile is created before any input is down, so no binding is ever under
+                      the held-input suppression: a binding without a read in this frame was not evaluated *)
                    match first_mod_in (ib_mods ib) (x_log o) with
                    | Some rd => [(6, veqb rd v); (7, state_eqb (sn_state s) (if active then SFired else SNone))]
-                   | None => []
+                   | None => [(6, false)]
                    end
                | _ => []
                end ++
@@ -72,7 +74,7 @@ Fixpoint judge_steps (sc : scenario) (prev_raw : option raw) (before : out) (ste
   match steps, outs with
   | SFrame f :: steps', o :: outs' =>
       (18, negb (x_panicked o)) :: judge_frame sc prev_raw f before o ++ judge_steps sc (Some (f_raw f)) o steps' outs'
-  | SOp _ :: steps', o :: outs' => (18, negb (x_panicked o)) :: judge_steps sc None o steps' outs'
+  | SOp _ :: steps', o :: outs' => (18, negb (x_panicked o)) :: (30, ops_leave_others before o) :: judge_steps sc None o steps' outs'
   | [], [] => []
   | _, _ => [(19, false)]
   end.
